@@ -103,7 +103,9 @@ def scopes_for_owner(owner: NixExpression) -> tuple[Scope, ...]:
     from nix_manipulator.expressions.set import AttributeSet  # type: ignore
 
     if isinstance(owner, AttributeSet) and owner.recursive:
-        scopes.append(_scope_from_attrset(owner, base=tuple(scopes)))
+        # The set's stored context is what encloses it, not its own let layers:
+        # those are added again on every call.
+        scopes.append(_scope_from_attrset(owner, base=inherited_scopes))
 
     from nix_manipulator.expressions.identifier import Identifier  # type: ignore
     from nix_manipulator.expressions.with_statement import WithStatement  # type: ignore
